@@ -13,6 +13,7 @@ Retry integrity tag verifies) are inputs: ideal packet protection is the trusted
 import Uquic.Proofs.GateRun
 import Uquic.Proofs.GateMisc
 import Uquic.Spec.GateMon
+import Uquic.Model.Handshake.DialCancel
 
 namespace Uquic.Props.C13
 open Uquic.Model.Handshake Uquic.Proofs.Gate
@@ -440,6 +441,52 @@ theorem handshake_timeout_value (c : Clock) : c.handshakeTimeout = 2 * c.handsha
 
 example : postWake { creationTime := 100, lastPacketReceivedTime := 100, firstAckElicitingSent := 100,
                      handshakeIdleTimeout := defaultHandshakeIdleTimeout } (100 + 5000000000) = .idleTimeout := by decide
+
+/-! ## 6b. a cancelled dial returns -/
+
+open DialCancel in
+/-- Dial never hangs on cancellation: once the dial context is cancelled and `conn.destroy(nil)` was issued, then
+— however the run loop ends (ordinary error, or errCloseForRecreating because it was just acting on a Version
+Negotiation packet) — after the run loop returned and its goroutine reported, the cancelled `doDial` (Transport's and
+UTransport's, with the channels they really listen on, regenerated from the source) returns within two of its own
+steps, in every interleaving that follows. If either function stops listening on one of the two channels this
+theorem no longer compiles (`cancel_needs_both_channels` is the counterexample). -/
+theorem dial_cancel_returns (spec : Bool) (e : RunEnd) (s : St)
+    (h1 : s.runEnded = some e) (h2 : s.signalled = true) (hp : s.pc ≠ .returned) :
+    (run (waitsOf spec) s [.dialStep, .dialStep]).pc = .returned := by
+  have hw : (waitsOf spec).contains e.chan = true := by
+    cases spec <;> cases e <;>
+      simp [waitsOf, RunEnd.chan, Uquic.Gen.Gate.cancelWaitUTransport, Uquic.Gen.Gate.cancelWaitTransport]
+  have hm : e.chan ∈ waitsOf spec := by simpa using hw
+  cases hpc : s.pc with
+  | returned => exact absurd hpc hp
+  | destroying => simp [run, step, hpc, h1, h2, hm]
+  | waiting => simp [run, step, hpc, h1, h2, hm]
+
+open DialCancel in
+/-- … and nothing that can still happen afterwards un-returns it or blocks it: from any state, any continuation
+that contains the run loop's end, the goroutine's report and then two steps of doDial ends returned. -/
+theorem dial_cancel_returns_run (spec : Bool) (e : RunEnd) :
+    (run (waitsOf spec) {} [.runReturns e, .goroutineSignals, .dialStep, .dialStep]).pc = .returned := by
+  cases spec <;> cases e <;>
+    simp [run, step, waitsOf, RunEnd.chan, Uquic.Gen.Gate.cancelWaitUTransport, Uquic.Gen.Gate.cancelWaitTransport]
+
+open DialCancel in
+/-- listening on errChan only is not enough: if the run loop ends for re-creation, the dial waits for ever -/
+theorem cancel_needs_both_channels (n : Nat) :
+    (run ["errChan"] {} ([.runReturns .recreate, .goroutineSignals] ++ List.replicate n .dialStep)).pc ≠ .returned := by
+  have : ∀ (n : Nat) (s : St), s.runEnded = some .recreate → s.pc ≠ .returned →
+      (run ["errChan"] s (List.replicate n .dialStep)).pc ≠ .returned := by
+    intro n
+    induction n with
+    | zero => intro s _ hp; simpa [run] using hp
+    | succ k ih =>
+      intro s hr hp
+      simp only [List.replicate_succ, run]
+      apply ih
+      · cases hpc : s.pc <;> simp [step, hpc, hr, RunEnd.chan]
+      · cases hpc : s.pc <;> simp_all [step, RunEnd.chan]
+  simpa [run, step] using this n _ (by simp [step]) (by simp [step])
 
 /-! ## 7. rejected 0-RTT is discarded -/
 
